@@ -9,7 +9,8 @@ package main
 //
 // Decided on the SSA form: for every loop bounded by len(<x>.Siblings) that contains (directly or through a module
 // helper returning it) a BN254 permutation,
-//   (a) the loop header has a phi D of circuit-variable type that flows into the arguments of that permutation call;
+//   (a) the loop header has a phi D of circuit-variable type that flows into the arguments of that permutation call
+//       and starts as the result of a hashing function of package poseidon (the hash of the leaf);
 //   (b) the value D receives along the back edge is exactly element 0 of the permutation's result (or the result of
 //       a helper that returns exactly that and receives D);
 //   (c) outside the loop D is used only as an operand of AssertIsEqual, as an operand of Sub (the flag form
@@ -265,6 +266,40 @@ func digestUsesOK(P *Program, v ssa.Value, in map[*ssa.BasicBlock]bool, depth in
 	return true, ""
 }
 
+// isLeafHash: v is the result of a hashing function of package poseidon applied to a list of field elements, or of a
+// module helper whose single return is that
+func isLeafHash(P *Program, v ssa.Value, depth int) bool {
+	c, ok := stripCopies(v).(*ssa.Call)
+	if !ok {
+		return false
+	}
+	g := c.Common().StaticCallee()
+	if g == nil || !P.InModule(g) {
+		return false
+	}
+	if fnPkgShort(g) == "poseidon" {
+		for _, a := range c.Common().Args {
+			if sl, ok := a.Type().Underlying().(*types.Slice); ok && typeIs(sl.Elem(), "goldilocks.Variable") {
+				return true
+			}
+		}
+		return false
+	}
+	if depth >= 1 || g.Blocks == nil {
+		return false
+	}
+	n := 0
+	for _, b := range g.Blocks {
+		if ret, ok := b.Instrs[len(b.Instrs)-1].(*ssa.Return); ok {
+			if len(ret.Results) != 1 || !isLeafHash(P, ret.Results[0], depth+1) {
+				return false
+			}
+			n++
+		}
+	}
+	return n > 0
+}
+
 func ruleMerkleDigestChain(cx *Ctx) []Obligation {
 	P := cx.P
 	key := "C12/O12.4/digest-chain"
@@ -344,7 +379,16 @@ func ruleMerkleDigestChain(cx *Ctx) []Obligation {
 					}
 				}
 				c := cand{phi: phi}
+				// the value the chain starts with: the hash of the leaf, as returned by the hashing function
+				var initV ssa.Value
+				for i, p := range l.Header.Preds {
+					if !l.Blocks[p] {
+						initV = phi.Edges[i]
+					}
+				}
 				switch {
+				case initV == nil || !isLeafHash(P, initV, 0):
+					c.why = "the chain does not start with the hash of the leaf as returned by the poseidon package: " + initV.String()
 				case multi || back == nil:
 					c.why = "the running digest has several back-edge values (a conditional update)"
 				default:
